@@ -481,7 +481,7 @@ def run_noniter(case):
 
 
 KINDS = OrderedDict([
-  ("hist", Kind(None, run_hist, chunk=16, timeout=15,
+  ("hist", Kind(None, run_hist, chunk=16, timeout=30,
                 rule="one case = one state (history); every enabled letter applied from it, then all handles drained")),
   ("noniter", Kind(gen_noniter, run_noniter, rule="thub(x, n) is x for non-iterables")),
 ])
